@@ -1,12 +1,96 @@
-import CentrifugeVerif.Model.ChanWriter
+import CentrifugeVerif.Proofs.ChanWriter
 /-!
-# C13 — per-channel batching preserves order and coalesces correctly (first theorem; more below)
+# C13 — per-channel batching preserves order and coalesces correctly
+
+Theorems over `Model/ChanWriter.lean` (`channelWriter`), for **every** sequence of adds (any batch size /
+delay, any key pattern), timer firings of any timer identity at any moment (also cancelled ones), and
+closes.  `CW.run` returns the batches handed to the flush callback in order.
+
+The cross-lock part of the statement ("nothing is delivered after the subscription ended") is *not*
+provable for the code: `perChannelWriter.Add` is `getWriter` followed by `w.Add` without a common lock,
+and the client calls it after its subscribed check; see `add_after_del_is_flushed` (a `decide`d
+witness at the `perChannelWriter` level) and the report.
 -/
 namespace CentrifugeVerif.ChanWriter
+
+/-- **Order, no loss, no duplication** (plain mode).  For a channel whose adds all come with
+`FlushLatestPublication = false` and that is never closed without flush: the concatenation of all
+flushed batches followed by what is still buffered is exactly the sequence of added items. -/
+theorem chan_order (ops : List Op) (hops : ∀ op ∈ ops, op.plainMode = true) :
+    (({} : CW).run ops).2.flatten ++ (({} : CW).run ops).1.buffer = adds ops := by
+  have := (run_plain {} rfl ops hops).1
+  simpa using this
+
+/-- **Latest-publication mode.**  For a channel whose adds all come with `FlushLatestPublication = true`
+and that is never closed without flush: every flushed batch is exactly `coalesce pending`, where
+`pending` are the items added since the previous flush — the join/leave pushes in their order followed
+by the newest publication of each key in last-update order (`dedupLast`: an entry is kept iff no later
+entry has its key).  `runP` is `run` instrumented with `pending` (`runP_fst`: same batches). -/
+theorem latest_mode_flush (ops : List Op) (hops : ∀ op ∈ ops, op.latestMode = true) :
+    (∀ p ∈ ({} : CW).runP [] ops, p.1 = coalesce p.2) ∧
+      (({} : CW).runP [] ops).map Prod.fst = (({} : CW).run ops).2 :=
+  ⟨runP_latest {} [] ⟨⟨rfl, rfl⟩, Or.inr rfl⟩ ops hops, runP_fst {} [] ops⟩
 
 /-- a cancelled / superseded timer goroutine that still observes its timer firing changes nothing and
 flushes nothing -/
 theorem stale_timer_noop (w : CW) (id : Nat) (h : w.timer ≠ some id) : w.fire id = (w, none) := by
   simp [CW.fire, h]
+
+/-- **Nothing buffered survives a close without flush.**  `close(false)` (what `delWriter(ch, false)` and
+`Close(false)` do to a channel writer) flushes nothing, and whatever happens to that writer afterwards
+(adds, stale or fresh timers, further closes), every item of every later batch was added *after* the
+close — for any state `w` the writer was in, i.e. any history. -/
+theorem closed_no_flush (w : CW) (ops : List Op) :
+    (w.close false).2 = none ∧
+      ∀ b ∈ ((w.close false).1.run ops).2, ∀ x ∈ b, x ∈ adds ops := by
+  refine ⟨by simp [CW.close], ?_⟩
+  intro b hb x hx
+  rcases run_mem (w.close false).1 ops b hb x hx with h | h | h
+  · simp [CW.close] at h
+  · simp [CW.close] at h
+  · exact h
+
+/-- nothing is invented: every flushed item was added (or was already held) -/
+theorem flushed_was_added (ops : List Op) : ∀ b ∈ (({} : CW).run ops).2, ∀ x ∈ b, x ∈ adds ops := by
+  intro b hb x hx
+  rcases run_mem {} ops b hb x hx with h | h | h
+  · cases h
+  · cases h
+  · exact h
+
+/-! Non-vacuity. -/
+
+/-- plain mode, size 2: two batches and one item left buffered -/
+example :
+    (({} : CW).run [.add ⟨1, 0, .pub⟩ ⟨2, 0, false⟩, .add ⟨2, 0, .join⟩ ⟨2, 0, false⟩,
+      .add ⟨3, 0, .pub⟩ ⟨2, 5, false⟩, .fire 0, .add ⟨4, 0, .pub⟩ ⟨2, 5, false⟩]).2 =
+      [[⟨1, 0, .pub⟩, ⟨2, 0, .join⟩], [⟨3, 0, .pub⟩]] := by decide
+
+/-- latest mode: key 1 updated twice, key 2 once, a join in between; the timer (identity 0) flushes
+`join, pub(key 2), pub(key 1 newest)` -/
+example :
+    (({} : CW).run [.add ⟨1, 1, .pub⟩ ⟨0, 5, true⟩, .add ⟨2, 2, .pub⟩ ⟨0, 5, true⟩, .add ⟨3, 0, .join⟩ ⟨0, 5, true⟩,
+      .add ⟨4, 1, .pub⟩ ⟨0, 5, true⟩, .fire 0]).2 = [[⟨3, 0, .join⟩, ⟨2, 2, .pub⟩, ⟨4, 1, .pub⟩]] := by decide
+
+example : coalesce [⟨1, 1, .pub⟩, ⟨2, 2, .pub⟩, ⟨3, 0, .join⟩, ⟨4, 1, .pub⟩] =
+    [⟨3, 0, .join⟩, ⟨2, 2, .pub⟩, ⟨4, 1, .pub⟩] := by decide
+
+/-- the quirk outside both modes: publications coalesced under `FlushLatestPublication = true` are
+dropped when the last add before the flush came with `false` -/
+example :
+    (({} : CW).run [.add ⟨1, 1, .pub⟩ ⟨0, 5, true⟩, .add ⟨2, 2, .pub⟩ ⟨0, 5, false⟩, .fire 0]).2 =
+      [[⟨2, 2, .pub⟩]] := by decide
+
+/-- **The gap** (`perChannelWriter` level): a handle obtained by `getWriter` before `delWriter(ch, false)`
+still accepts an `Add` afterwards, arms a timer, and the item is flushed to the connection after the
+channel's writer was removed.  (`perChannelWriter.Add` entirely after `delWriter` does the same through a
+freshly created writer.) -/
+theorem add_after_del_is_flushed :
+    let p0 : PCW := {}
+    let (p1, h) := p0.getWriter 7
+    let (p2, _) := p1.del 7 false
+    let (p3, b3) := p2.addH h ⟨1, 0, .pub⟩ ⟨0, 5, false⟩
+    let (_, out) := PCW.sleep 3 p3 5 []
+    b3 = none ∧ out = [[[⟨1, 0, .pub⟩]]] := by decide
 
 end CentrifugeVerif.ChanWriter
